@@ -368,6 +368,29 @@ func emitArity(p *Program, pkg *packages.Package, widths map[*types.Const][]int6
 				if k := constOf(info, rhs); k != nil {
 					varConsts[obj] = append(varConsts[obj], k)
 				}
+				// op, n, err := c.helper(…): the opcode constants the helper returns at this position
+				if len(as.Rhs) == 1 && len(as.Lhs) > 1 {
+					if hc, ok := ast.Unparen(as.Rhs[0]).(*ast.CallExpr); ok {
+						if hf := calleeFunc(info, hc); hf != nil && hf.Pkg() == pkg.Types {
+							for _, hd := range Funcs(pkg) {
+								if hd.Obj != hf || hd.Decl.Body == nil {
+									continue
+								}
+								ast.Inspect(hd.Decl.Body, func(y ast.Node) bool {
+									if _, isLit := y.(*ast.FuncLit); isLit {
+										return false
+									}
+									if ret, ok := y.(*ast.ReturnStmt); ok && i < len(ret.Results) {
+										if k := constOf(info, ret.Results[i]); k != nil && isNamed(k.Type(), pkg.PkgPath, "Opcode") {
+											varConsts[obj] = append(varConsts[obj], k)
+										}
+									}
+									return true
+								})
+							}
+						}
+					}
+				}
 			}
 			return true
 		})
@@ -802,6 +825,18 @@ func jumpConsumers(val ssa.Value, change *ssa.Function, fn *ssa.Function) (strin
 				kind = "changeOperand"
 				blocks = append(blocks, x.Block())
 			}
+			// handed to a helper of the package that patches the position it is given on each of its success paths
+			if h := x.Call.StaticCallee(); h != nil && h != change && h != fn && h.Pkg == fn.Pkg && len(h.Blocks) > 0 {
+				for i, a := range x.Call.Args {
+					if a != val || i >= len(h.Params) {
+						continue
+					}
+					if k2, b2, _ := jumpConsumers(h.Params[i], change, h); k2 == "changeOperand" && successPathAvoiding(h.Blocks[0], b2) == "" {
+						kind = "changeOperand"
+						blocks = append(blocks, x.Block())
+					}
+				}
+			}
 		case *ssa.Return:
 			if kind == "" {
 				kind = "return"
@@ -1044,6 +1079,20 @@ func breaksDiscipline(p *Program, pkg *packages.Package, change *ssa.Function, r
 					if x.Call.StaticCallee() == change && inCycle(b) && len(x.Call.Args) >= 2 {
 						if derivesFromField(x.Call.Args[1], "breaks", 6) {
 							patches = true
+						}
+					}
+					// a helper of the compiler that ranges c.breaks into changeOperand on every success path
+					if h := x.Call.StaticCallee(); h != nil && h != change && h != sf && h.Pkg == sf.Pkg && len(h.Blocks) > 0 && !patches {
+						var lastLoop *ssa.BasicBlock
+						for _, hb := range h.Blocks {
+							for _, hi := range hb.Instrs {
+								if hc, ok := hi.(*ssa.Call); ok && hc.Call.StaticCallee() == change && inCycle(hb) && len(hc.Call.Args) >= 2 && derivesFromField(hc.Call.Args[1], "breaks", 6) {
+									lastLoop = loopHeaderOf(hb)
+								}
+							}
+						}
+						if lastLoop != nil && successPathAvoiding(h.Blocks[0], []*ssa.BasicBlock{lastLoop}) == "" {
+							patches = true // every success path of the helper passes its loop over the break list
 						}
 					}
 				}
